@@ -200,6 +200,25 @@ int main()
         }
         optlist_def("g_lookup1", one);
         optlist_def("g_lookup2", two);
+        // the same function evaluated by the compiler (constexpr / _ete literals at
+        // namespace scope): it must be the same function
+        {
+            static constexpr auto graphs = []() {
+                struct { long one[256]; long two[256]; } g{};
+                for (int b = 0; b < 256; ++b)
+                {
+                    byte const c1[2] = {byte(b), byte('5')};
+                    auto const r = lookup_character_set(bytes(c1, 1));
+                    g.one[b] = r ? long(r->value_) : -1;
+                    byte const c2[3] = {ansi::charset_extender, byte(b), byte('6')};
+                    auto const r2 = lookup_character_set(bytes(c2, 2));
+                    g.two[b] = r2 ? long(r2->value_) : -1;
+                }
+                return g;
+            }();
+            optlist_def("g_lookup1_constexpr", std::vector<long>(std::begin(graphs.one), std::end(graphs.one)));
+            optlist_def("g_lookup2_constexpr", std::vector<long>(std::begin(graphs.two), std::end(graphs.two)));
+        }
         byte c3[2] = {ansi::charset_extender, byte('6')};
         auto r3 = lookup_character_set(bytes(c3, 1));
         optlist_def("g_lookup_extender_alone", {r3 ? long(r3->value_) : -1});
